@@ -239,6 +239,39 @@ func structFieldValue(ctx *Ctx, sv ssa.Value, field int) ctxVal {
 				continue
 			}
 			return ctxVal{}
+		case *ssa.Call, *ssa.Extract:
+			// the struct is the result of a module function: the field's value in that function's (success) returns
+			call, comp := valueComponent(x)
+			if call == nil {
+				return ctxVal{}
+			}
+			g := call.Call.StaticCallee()
+			if g == nil || g.Blocks == nil || !inModule(g) {
+				return ctxVal{}
+			}
+			st, ok := sv.Type().Underlying().(*types.Struct)
+			if !ok || field >= st.NumFields() {
+				return ctxVal{}
+			}
+			want := comp + "." + st.Field(field).Name()
+			var found ssa.Value
+			for _, ret := range returnsOf(g) {
+				if isFailureReturn(g, ret) {
+					continue
+				}
+				v, ok := retComponents(ret)[want]
+				if !ok {
+					return ctxVal{}
+				}
+				if found != nil && found != v {
+					return ctxVal{} // several different values: not resolved
+				}
+				found = v
+			}
+			if found == nil {
+				return ctxVal{}
+			}
+			return ctxVal{&Ctx{Parent: ctx, Site: call, Fn: g}, found}
 		default:
 			return ctxVal{}
 		}
